@@ -89,6 +89,21 @@ def run(R):
     else:
         R.violation("C12.iter", "FileExecutor::execute|file-loop", "the loop over the input files is not a plain traversal of Vec<BufReader<File>>",
                     [f.loc()])
+    # command-line order: the CLI opens the files in argument order (push in a plain loop, no sorting / reversing / dedup)
+    for bf in [g for g in P.fns.values() if g.target == "bin" and g.kind != "Closure"]:
+        opens = [c for c in bf.calls if short(c.name) == "std::fs::File::open"]
+        pushes = [c for c in bf.calls if short(c.name) == "alloc::vec::Vec::push" and (c.func.get("res_targs") or c.targs)[:1] == ["std::fs::File"]]
+        if not opens or not pushes:
+            continue
+        reorder = [c for c in bf.calls if re.search(r"::(sort|sort_by|sort_by_key|sort_unstable|reverse|dedup|dedup_by_key|swap|rotate_left|rotate_right|retain)$|"
+                                                    r"Iterator::(rev|skip|step_by)$", short(c.name))]
+        lp = PR.loop_of(bf, pushes[0].bb)
+        if lp and not reorder:
+            R.ok("C12.iter", "cli|" + bf.spath.split("::")[-1], "files opened and pushed in argument order", pushes[0].loc())
+        else:
+            R.violation("C12.iter", "cli|" + bf.spath.split("::")[-1] + "|order",
+                        "the CLI reorders / filters the input files (%s): lines are not presented in command-line order"
+                        % [short(c.name).split("::")[-1] for c in reorder], [bf.loc()])
     from . import rules_c01
     rules_c01.total_paths(R, "C12.present")
     R.floor("C12.once", 2)
